@@ -150,7 +150,7 @@ def n_slots(shape):
 
 def fillings(n, lits=LITS, anchors_only=False):
     """Every valid token sequence of length n (alias after its definition, a name defined once).
-    anchors_only: no literals and every defined anchor... (just no literals)."""
+    anchors_only: no literal tokens (every slot is a definition or an alias)."""
     pool = (() if anchors_only else tuple(lits)) + DEFS + ALIASES
     out = []
 
